@@ -350,3 +350,90 @@ Example C02_fault_nonvacuous :
    fst (fst (fst w2)) = IoDefs.SOk /\ dirty_flag (fe (snd (fst (fst w2)))) = false /\
    snd (ec_quit false [fe (snd (fst (fst w2)))]) = true).
 Proof. vm_compute. repeat split. Qed.
+
+(* ------------------------------------------------------------------------------------------ *)
+(* THE MODEL IS THE C TEXT (coq/TrLbuf.v): lbuf_seq, lbuf_modified, lbuf_unsaved, lbuf_saved(lb, 0) of /repo/lbuf.c, translated
+   by tools/c2clite.py into CLite terms (coq/GenCFuncs.v, whitelist tools/c2clite.d/50_lbuf.list), RUN on a memory in which
+   block bl is a `struct lbuf` (75 cells) representing the model state lb -- TrLbuf.lbuf_rep: the cells useq 68, hist_sz 70,
+   hist_n 71, hist_u 72, useq_zero 73, useq_last 74 hold the model's fields, cell 69 points to another block whose cells
+   9 i + 6 are the seq fields of the log entries, ALL other cells (marks, ln, ln_glob, ln_n, ln_sz, the rest of the log
+   entries) hold anything -- return the value UndoDefs computes, for EVERY state whose ints are inside int and whose undo
+   cursor is inside the log, and leave the memory in which exactly the cell the model changes is changed (which again
+   represents the model's next state).  No load or store leaves its block; the only signed operation that can overflow is
+   lb->useq++, excluded by useq < INT_MAX -- and at INT_MAX the translated function IS the error EOverflow. *)
+From Coq Require Import Lia.
+From NV Require Import CLite CLiteProps GenCFuncs TrLbuf.
+
+Theorem C02_tr_lbuf_seq : forall m bl blk (lb : lbuf) d fuel, lbuf_rep m bl blk lb -> lbuf_ints lb ->
+  callf cprog fuel (S d) F_lbuf_seq [VPtr bl 0] m = Ok (VInt (lbuf_seq lb), m).
+Proof. exact tr_lbuf_seq. Qed.
+Print Assumptions C02_tr_lbuf_seq.
+
+Theorem C02_tr_lbuf_modified : forall m bl blk (lb : lbuf) d fuel, lbuf_rep m bl blk lb -> lbuf_ints lb ->
+  (useq lb < 2147483647)%Z ->
+  let blk' := upd blk L_useq (VInt (useq lb + 1)) in
+  callf cprog fuel (S (S d)) F_lbuf_modified [VPtr bl 0] m
+    = Ok (VInt (b2z (snd (lbuf_modified lb))), upd m bl blk')
+  /\ lbuf_rep (upd m bl blk') bl blk' (fst (lbuf_modified lb)).
+Proof. exact tr_lbuf_modified. Qed.
+Print Assumptions C02_tr_lbuf_modified.
+
+Theorem C02_tr_lbuf_modified_overflow : forall m bl blk (lb : lbuf) d fuel, lbuf_rep m bl blk lb ->
+  useq lb = 2147483647%Z ->
+  callf cprog fuel (S (S d)) F_lbuf_modified [VPtr bl 0] m = Err EOverflow.
+Proof. exact tr_lbuf_modified_overflow. Qed.
+Print Assumptions C02_tr_lbuf_modified_overflow.
+
+Theorem C02_tr_lbuf_unsaved : forall m bl blk (lb : lbuf) d fuel, lbuf_rep m bl blk lb ->
+  let blk' := upd blk L_useq_zero (VInt (-1)) in
+  callf cprog fuel (S d) F_lbuf_unsaved [VPtr bl 0] m = Ok (VUndef, upd m bl blk')
+  /\ lbuf_rep (upd m bl blk') bl blk' (lbuf_unsaved lb).
+Proof. exact tr_lbuf_unsaved. Qed.
+Print Assumptions C02_tr_lbuf_unsaved.
+
+(* lbuf_saved(lb, 0) ends with lbuf_modified(xb), xb = ex_lbuf() = bufs[0].lb: the hypothesis says that slot 0 of the global
+   table bufs (block G_bufs; struct buf is 41 cells, lb is cell 33) points to this struct, which is what every caller passes *)
+Theorem C02_tr_lbuf_saved_keep : forall m bl blk (lb : lbuf) gblk d fuel, lbuf_rep m bl blk lb -> lbuf_ints lb ->
+  (useq lb < 2147483647)%Z ->
+  bl <> G_bufs -> nth_error m G_bufs = Some gblk -> nth_error gblk B_lb = Some (VPtr bl 0) ->
+  let blk' := upd (upd blk L_useq_zero (VInt (lbuf_seq lb))) L_useq (VInt (useq lb + 1)) in
+  callf cprog fuel (S (S (S d))) F_lbuf_saved [VPtr bl 0; VInt 0] m = Ok (VUndef, upd m bl blk')
+  /\ lbuf_rep (upd m bl blk') bl blk' (lbuf_saved lb false).
+Proof. exact tr_lbuf_saved_keep. Qed.
+Print Assumptions C02_tr_lbuf_saved_keep.
+
+(* not vacuous, and the translated functions RUN: the struct of a buffer with one log entry (seq 4) below the undo cursor,
+   counter 5, saved at 3 (so: modified), marks -1, in block 12 behind the program's globals, bufs[0].lb pointing to it.
+   lbuf_seq returns 4; lbuf_modified returns 1 and stores 6 into cell 68 only; after lbuf_saved(lb, 0) the next
+   lbuf_modified returns 0; after lbuf_unsaved it returns 1 again *)
+Example C02_tr_nonvacuous :
+  let lb0 := {| ln := []; hist := [{| pos := 0; n_ins := 1; n_del := 0; del := None; ins := Some [97; 10]%N; seq := 4 |}];
+                hist_u := 1; hist_sz := 128; useq := 5; useq_zero := 3; useq_last := 2 |} in
+  let blk0 := repeat (VInt (-1)) 32 ++ repeat (VInt 0) 32 ++
+              [VInt 0; VInt 0; VInt 0; VInt 0; VInt 5; VPtr 13 0; VInt 128; VInt 1; VInt 1; VInt 3; VInt 2] in
+  let hb0 := [VInt 0; VInt 0; VInt 0; VInt 1; VInt 0; VInt 0; VInt 4; VInt 0; VInt 0] in
+  let m0 := upd cglobals G_bufs (upd gb_bufs B_lb (VPtr 12 0)) ++ [blk0; hb0] in
+  let cell m i := match nth_error m 12%nat with Some b => nth_error b i | None => None end in
+  lbuf_rep m0 12 blk0 lb0 /\ lbuf_ints lb0 /\
+  callf cprog 1 3 F_lbuf_seq [VPtr 12 0] m0 = Ok (VInt 4, m0) /\
+  callf cprog 1 3 F_lbuf_modified [VPtr 12 0] m0 = Ok (VInt 1, upd m0 12 (upd blk0 L_useq (VInt 6))) /\
+  match callf cprog 1 3 F_lbuf_saved [VPtr 12 0; VInt 0] m0 with
+  | Ok (_, m1) => cell m1 L_useq_zero = Some (VInt 4) /\ cell m1 L_useq = Some (VInt 6) /\
+      match callf cprog 1 3 F_lbuf_modified [VPtr 12 0] m1 with
+      | Ok (v, m2) => v = VInt 0 /\
+          match callf cprog 1 3 F_lbuf_unsaved [VPtr 12 0] m2 with
+          | Ok (_, m3) => cell m3 L_useq_zero = Some (VInt (-1)) /\
+                          (exists m4, callf cprog 1 3 F_lbuf_modified [VPtr 12 0] m3 = Ok (VInt 1, m4))
+          | Err _ => False
+          end
+      | Err _ => False
+      end
+  | Err _ => False
+  end.
+Proof.
+  cbv zeta. split.
+  { constructor; try reflexivity. intros _. exists 13%nat, [VInt 0; VInt 0; VInt 0; VInt 1; VInt 0; VInt 0; VInt 4; VInt 0; VInt 0].
+    split; [discriminate|]. split; [reflexivity|]. split; [reflexivity|]. intros [|i] Hi; [reflexivity|cbn in Hi; lia]. }
+  split. { unfold lbuf_ints, i32. cbn. repeat split; try lia. repeat constructor; cbn; lia. }
+  vm_compute. repeat split. eexists. reflexivity.
+Qed.
